@@ -1,36 +1,24 @@
 #!/bin/bash
-# runs each seeded change against the quick checks of the properties it concerns
+# Runs each seeded change against the quick checks of the properties it concerns, in a scratch
+# worktree of /repo HEAD (VERIF_REPO), so that /repo and /verif/evidence stay untouched.
+# usage: seed_matrix.sh [outfile] < list   (default list: tools/seed_matrix.list)
 cd /verif
-OUT=/verif/seeded/matrix.txt
+OUT=${1:-/verif/seeded/matrix.txt}
+LIST=${2:-/verif/tools/seed_matrix.list}
+WT=/tmp/wt_matrix
+git -C /repo worktree remove --force $WT 2>/dev/null
+git -C /repo worktree add -q --detach $WT HEAD || exit 1
+export VERIF_REPO=$WT
 : > $OUT
 while read seed props; do
-  git -C /repo apply /verif/seeded/$seed/patch.diff || { echo "$seed PATCH-FAILS" >> $OUT; continue; }
+  [ -z "$seed" ] && continue
+  git -C $WT apply /verif/seeded/$seed/patch.diff || { echo "$seed PATCH-FAILS" >> $OUT; continue; }
   for p in $props; do
     out=$(./check $p quick 2>&1); rc=$?
     lab=$(echo "$out" | grep -m1 "^  harness=" | sed 's/ | native.*//' | cut -c1-160)
     echo "$seed $p exit=$rc $lab" >> $OUT
   done
-  git -C /repo checkout -- .
-done <<'L'
-C10-a C10
-C11-a C14 C11
-C12-a C12 C11
-C13-a C13
-C14-a C14
-C15-a C15
-C18-a C18
-C20-a C20
-C01-b C01 C07
-C02-b C02 C16
-C03-b C03
-C04-b C04 C17
-C05-b C05 C17
-C06-b C06
-C07-b C07
-C08-b C08
-C09-b C09
-C16-b C16 C17
-C17-b C17
-C19-b C19
-L
+  git -C $WT checkout -- . ; git -C $WT clean -fdq
+done < $LIST
+git -C /repo worktree remove --force $WT
 echo DONE >> $OUT
